@@ -42,4 +42,18 @@ pub open spec fn lock_after(resp: PendingInfoResponse, in_package: bool, before:
         }
     } else { after == before } // [nothing_else_is_recorded]
 }
+/// C03 "leaves no entry unfinished" at Builder::visit, for an external answer: afterwards the answered specifier has an
+/// entry that is not the in-flight marker — the entry it already had when that was settled, else an external module
+pub open spec fn external_answer_settled(g0: ModuleGraph, g1: ModuleGraph, resp: PendingInfoResponse) -> bool {
+    match resp {
+        PendingInfoResponse::External { specifier, is_root, is_asset } => {
+            let ext = ModuleSlot::Module(Module::External(ExternalModule { maybe_cache_info: None, specifier, was_asset_load: is_asset }));
+            &&& g1.module_slots@.contains_key(specifier)
+            &&& g1.module_slots@[specifier] == (if g0.module_slots@.contains_key(specifier) && !(g0.module_slots@[specifier] is Pending) { g0.module_slots@[specifier] } else { ext })
+            &&& forall|k: Url| k != specifier ==> (#[trigger] g1.module_slots@.contains_key(k) <==> g0.module_slots@.contains_key(k))
+                    && (g0.module_slots@.contains_key(k) ==> g1.module_slots@[k] == g0.module_slots@[k])
+        },
+        _ => true,
+    }
+}
 } // verus!
